@@ -108,6 +108,7 @@ def make_weather(seed, climate):
     idx = rng.choice(n, 12, replace=False)
     pr[idx] += rng.uniform(60, 160, 12)
     et = np.clip(3 + 2.2 * np.sin(2 * np.pi * (doy - 110) / 365.25) + rng.normal(0, 0.6, n), 0.1, None)
+    et[rng.choice(n, 60, replace=False)] = 0.0          # days without evaporative demand (valid records: ReferenceET = 0)
     return pd.DataFrame({"MinTemp": np.round(tmin, 2), "MaxTemp": np.round(tmax, 2), "Precipitation": np.round(pr, 2),
                          "ReferenceET": np.round(et, 2), "Date": d})
 
